@@ -133,7 +133,7 @@ def atoms(f, D, depth=0):
     return {D}
 
 
-def eval3(f, D, assign, depth=0):
+def eval3(f, D, assign, depth=0, reach=None):
     """three-valued evaluation of a boolean term under a partial assignment {atom term: bool}; None = unknown"""
     D = mir.strip_refs(D)
     if depth > 12:
@@ -144,10 +144,10 @@ def eval3(f, D, assign, depth=0):
     if cb is not None:
         return cb
     if D[0] == "un" and D[1] == "Not":
-        v = eval3(f, D[2], assign, depth + 1)
+        v = eval3(f, D[2], assign, depth + 1, reach)
         return None if v is None else (not v)
     if D[0] == "bin" and D[1] in ("BitOr", "BitAnd", "BitXor", "Eq", "Ne"):
-        a, b = eval3(f, D[2], assign, depth + 1), eval3(f, D[3], assign, depth + 1)
+        a, b = eval3(f, D[2], assign, depth + 1, reach), eval3(f, D[3], assign, depth + 1, reach)
         if D[1] == "BitOr":
             if a is True or b is True:
                 return True
@@ -159,31 +159,53 @@ def eval3(f, D, assign, depth=0):
         if a is None or b is None:
             return None
         return (a != b) if D[1] in ("BitXor", "Ne") else (a == b)
+    if D[0] == "phi" and isinstance(D[1], tuple) and isinstance(D[1][0], int) and not any(lp.header == D[1][0] for lp in f.loops()):
+        # a stored boolean built by short-circuit `||` / `&&`: the arms whose edge conditions are not contradicted by
+        # the assignment are feasible; if all feasible arms have the same known value, that is the value
+        bb = D[1][0]
+        alive = f.reachable()
+        preds = [p for p in f.pred[bb] if p in alive]
+        if len(preds) != len(D[2]):
+            return None
+        vals = set()
+        for p, arm in zip(preds, D[2]):
+            feasible = reach is None or p in reach
+            if feasible:
+                for at, tv in edge_facts(f, p, bb, depth + 1):
+                    ev = eval3(f, at, assign, depth + 1, reach)
+                    if ev is not None and ev != tv:
+                        feasible = False
+                        break
+            if not feasible:
+                continue
+            vals.add(eval3(f, arm, assign, depth + 1, reach))
+        if len(vals) == 1:
+            return next(iter(vals))
+        return None
     return None
 
 
 def reach_under(f, assign, start=0):
-    """blocks reachable from `start` when every bool switch whose discriminant is decided by the partial assignment
-    takes the decided side only"""
-    seen, work = set(), [start]
-    while work:
-        b = work.pop()
-        if b in seen:
+    """blocks reachable from the entry when every bool switch whose discriminant is decided by the partial assignment
+    takes the decided side only. Blocks are visited in reverse post-order, so that a stored boolean (a join of
+    short-circuit arms) is evaluated knowing which of its arms can have been taken at all."""
+    order = f.rpo()
+    seen = {start}
+    for b in order:
+        if b not in seen:
             continue
-        seen.add(b)
         t = f.term(b)
         if t["k"] == "switch" and not [v for v, _ in t["targets"] if v != 0]:
-            v = eval3(f, f.operand(t["discr"], f.end_point(b)), assign)
+            v = eval3(f, f.operand(t["discr"], f.end_point(b)), assign, 0, seen)
             zero = [tb for vv, tb in t["targets"] if vv == 0]
             if v is True:
-                work.append(t["otherwise"])
+                seen.add(t["otherwise"])
                 continue
             if v is False and zero:
-                work.append(zero[0])
+                seen.add(zero[0])
                 continue
-        for s in f.succ[b]:
-            # unwind edges are not followed
-            work.append(s)
+        for s_ in f.succ[b]:
+            seen.add(s_)
     return seen
 
 
